@@ -125,6 +125,11 @@ pub fn is_authorized_batched(
         // check that all requested entities were loaded and return error otherwise
 
         for (id, e_option) in loaded_entities {
+            // Loaders may return more entities than requested, including ones
+            // loaded in an earlier iteration; those are already in `entities`
+            if entities.contains_entity(&id) {
+                continue;
+            }
             match e_option {
                 Some(e) => {
                     entities.add_entities(
